@@ -35,6 +35,10 @@ def execute_run(plan: dict, schedule: list | None = None, timeout_s: int = 900) 
     records = []
     ops = _ops_by_id(plan)
     harness_error = None
+    import shutil
+    import tempfile
+
+    xla_cache = tempfile.mkdtemp(prefix="xla-", dir=runner.scratch_root())
     for i, inc in enumerate(plan["incarnations"]):
         sched = dict(inc["sched"])
         if schedule is not None:
@@ -50,7 +54,7 @@ def execute_run(plan: dict, schedule: list | None = None, timeout_s: int = 900) 
             "script_seed": plan.get("script_seed", 0),
         }
         try:
-            rep = runner.run_incarnation(inc_plan, inc["hashseed"], timeout_s=timeout_s)
+            rep = runner.run_incarnation(inc_plan, inc["hashseed"], timeout_s=timeout_s, xla_cache=xla_cache)
         except runner.IncarnationFailure as e:
             harness_error = f"incarnation {i}: {e}"
             break
@@ -65,6 +69,7 @@ def execute_run(plan: dict, schedule: list | None = None, timeout_s: int = 900) 
         if not rep.get("ok"):
             harness_error = f"incarnation {i}: {rep.get('harness_error')}\n{rep.get('stderr_tail', '')}"
             break
+    shutil.rmtree(xla_cache, ignore_errors=True)
     records.sort(key=lambda r: r["id"])
     out = {
         "run_seed": plan.get("run_seed"),
